@@ -20,7 +20,7 @@ RULE = ("full cross product of the enumerated dimensions (sampled in quick); non
         "acceptance while the application still had data to send; distinct = distinct case hash")
 ASSUMPTIONS = ["HTTP/1 half-close by the client is not a connection close (release demanded on reset / resume only)",
                "other connections are not modelled in the connection tier (sibling streams are)"]
-MIN_DECISIVE = {"bounded": 20, "released": 20, "siblings": 5, "end-needs-no-credit": 8}
+MIN_DECISIVE = {"bounded": 20, "released": 20, "siblings": 5, "end-needs-no-credit": 8, "wsgi-bounded": 4}
 BOUND_BASE = 256 * 1024
 
 
@@ -50,12 +50,36 @@ def gen(rng, tier):
         for variant in ("exact_stream_window", "exact_conn_window", "empty_sibling_conn0", "empty_sibling_stream0_self"):
             n += 1
             yield _build_endzero(rng, 900000 + n, variant)
+    # ---- WSGI applications stream through the same back-pressure: the iterable is consumed only as fast as the client accepts data ----
+    for rep in range(1 if tier == "quick" else 6):
+        for proto in ("h1", "h2"):
+            for be in ("asyncio", "trio"):
+                n += 1
+                yield _build_wsgi(rng, 950000 + n, proto, be)
     rng.shuffle(cases)
     if tier == "quick":
         cases = cases[:360]
     for (kind, size, chunk, point, release, sib) in cases:
         n += 1
         yield _build(rng, n, kind, size, chunk, point, release, sib)
+
+
+def _build_wsgi(rng, n, proto, be):
+    nchunks, chunk = rng.choice([(128, 16384), (64, 65536), (600, 4096)])
+    spec = {"shape": "stream", "status": "200 OK", "headers": [("X-W", "v%d" % n)], "nchunks": nchunks, "chunk": chunk, "max_body": 65536, "via": "wrapper"}
+    truth = {"kind": "wsgi." + proto, "size": nchunks * chunk, "chunk": chunk, "tag": n, "sib": [], "release": "resume" if proto == "h1" else "credit"}
+    if proto == "h1":
+        client = [["pause"], ["feed", b"GET /t%d HTTP/1.1\r\nHost: h\r\n\r\n" % n], ["settle"], ["mark", "stall"], ["resume"], ["settle"]]
+        return {"family": "wsgi.h1.pause", "backends": [be], "config": {"keep_alive_timeout": 5000}, "conn": {}, "wsgi": spec, "apps": {},
+                "client": client, "truth": truth, "sched": {"seed": rng.randrange(1 << 30)}, "horizon": 100.0}
+    fb = FrameBuilder()
+    rspec = {"kind": "h2", "credit": "none"}
+    blob = client_preface(fb, rspec) + fb.headers(1, [(b":method", b"GET"), (b":scheme", b"http"), (b":path", b"/t%d" % n), (b":authority", b"h")], end_stream=True)
+    total = nchunks * chunk + 100
+    client = [["feed", blob], ["settle"], ["mark", "stall"], ["react", "window_update", 1, total], ["react", "window_update", 0, total], ["settle"]]
+    truth["sid"] = 1
+    return {"family": "wsgi.h2.no-credit", "backends": [be], "config": {"keep_alive_timeout": 5000}, "conn": {}, "wsgi": spec, "apps": {},
+            "client": client, "reactor": rspec, "truth": truth, "sched": {"seed": rng.randrange(1 << 30)}, "horizon": 100.0}
 
 
 def _build_endzero(rng, n, variant):
@@ -242,6 +266,34 @@ def check(case, obs, tally):
         if stuck and not out:
             out.append({"clause": "end-needs-no-credit", "sig": "C08.not-released/h2/end-without-credit",
                         "detail": "send(%r) of %s still waiting although nothing of it needs credit" % (stuck[0][4]["msg"].get("type"), paths.get(stuck[0][4]["inst"]))})
+        return out
+    if t["kind"].startswith("wsgi."):
+        mk = obs.marks["stall"]
+        taken = max([e[4]["total"] for e in obs.trace.events if e[2] == "app" and e[3] == "wsgi-yield" and e[0] < mk["seq"]] + [0])
+        delivered = mk["outlen"]
+        bound = BOUND_BASE + 2 * t["chunk"]
+        tally.clause("bounded")
+        tally.clause("wsgi-bounded")
+        if taken == 0:
+            tally.inconclusive["wsgi-app-not-streaming"] += 1
+            return out
+        if taken - delivered > bound:
+            out.append({"clause": "bounded", "sig": "C08.unbounded/wsgi-%s" % t["kind"].split(".")[1],
+                        "detail": "while the client accepted nothing more the WSGI iterable had been advanced to %d bytes and the client holds %d: "
+                                  "held >= %d > bound %d (response %d, chunk %d)" % (taken, delivered, taken - delivered, bound, t["size"], t["chunk"])})
+        tally.clause("released")
+        if t["kind"] == "wsgi.h1":
+            try:
+                resps, _ = h1.parse_responses(obs.outbytes, [("GET", "1.1")], True)
+                ok = bool(resps) and resps[0].complete and len(resps[0].body) == t["size"]
+            except h1.Malformed:
+                ok = False
+        else:
+            s_ = obs.reactor.streams.get(1)
+            ok = s_ is not None and len(s_.data) == t["size"] and s_.ended == 1
+        if not ok:
+            out.append({"clause": "released", "sig": "C08.incomplete-after-release/wsgi-%s" % t["kind"].split(".")[1],
+                        "detail": "pressure abated but the streamed WSGI response is not complete at the client"})
         return out
     mk = obs.marks["stall"]
     inst = None
